@@ -27,6 +27,24 @@ let op_ns_feed a = pump_line "ns_feed" (bytes_of_string (hex_dec (List.hd a.pos)
 let op_ns_wfeed a = pump_line "ns_wfeed" (ns_write (bytes_of_string (hex_dec (List.hd a.pos))))
 let op_ns_write a = emit ("ns_write " ^ hexl (ns_write (bytes_of_string (hex_dec (List.hd a.pos)))))
 
+(* ---------------- netstring, buffered variant up to the end of the stream ---------------- *)
+let chunks_of a = List.map (fun h -> bytes_of_string (hex_dec h)) (String.split_on_char ',' (List.hd a.pos))
+let end_name = function NsEndEof -> "eof" | NsEndErr _ -> "err" | NsEndFuel -> "loop"
+
+(* the model is run with the chunks of the script as fills (whatever the real stream type makes of them:
+   C20_ns_eof_chunking_independent) *)
+let op_ns_eof a =
+  let ((items, e), size) = ns_read_all (z_of_int (num a "max" (-1))) (chunks_of a) in
+  let its = match items with [] -> "." | l -> String.concat "," (List.map hexl l) in
+  emit (Printf.sprintf "ns_eof items=%s end=%s size=%s sticky=%s" its (end_name e)
+          (match e with NsEndEof -> string_of_int (int_of_z size) | _ -> "-") (match e with NsEndEof -> "1" | _ -> "-"))
+
+(* ConfigObject::RestoreObjects: the same loop, no maxMessageLength; an exception of the reader leaves it *)
+let ns_restore_line a =
+  let ((_, e), _) = ns_read_all (z_of_int (-1)) (chunks_of a) in
+  "ns_restore " ^ (match e with NsEndEof -> "done" | NsEndErr _ -> "err" | NsEndFuel -> "hang")
+let op_ns_restore a = emit (ns_restore_line a)
+
 (* ---------------- netstring, stream variant ---------------- *)
 let nss_run max input =
   (* -> items, end, rest *)
@@ -191,6 +209,22 @@ let oracle_c20 script trace =
         let t = toks_of l in
         let got = bytes_of_string (hex_dec (List.nth t 1)) in
         if not (cd_bytes_eqb got (ns_write (bytes_of_string (hex_dec (List.hd a.pos))))) then fail "ns-write differs-from-model")
+    | Some ("ns_eof", a) ->
+      (match take line with None -> () | Some l ->
+        let t = toks_of l in
+        let input = List.concat (chunks_of a) in
+        (match tok_val t "items", tok_val t "end", tok_val t "size", tok_val t "sticky" with
+         | Some it, Some e, Some sz, Some sticky ->
+           let code = (match e with "eof" -> 0 | "err" -> 1 | _ -> 2) in
+           let num_or s = (match int_of_string_opt s with Some n -> n | None -> -1) in
+           if code = 2 then fail (Printf.sprintf "ns-eof no-terminal-status-within-bound mode=%s (caller loop would not end)" (str a "mode" "chunk"))
+           else if not (ns_oracle_eof (z_of_int (num a "max" (-1))) input (items_of it) (z_of_int code) (z_of_int (num_or sz)) (z_of_int (num_or sticky)))
+           then fail (Printf.sprintf "ns-eof differs-from-model mode=%s" (str a "mode" "chunk"))
+         | _ -> fail ("ns-eof malformed-observation " ^ l)))
+    | Some ("ns_restore", a) ->
+      (match take line with None -> () | Some l ->
+        if l <> ns_restore_line a then
+          fail (Printf.sprintf "ns-eof RestoreObjects %s expected=%s" (String.concat "_" (List.tl (toks_of l))) (ns_restore_line a)))
     | Some ("nss_read", a) ->
       (match take line with None -> () | Some l ->
         let t = toks_of l in
@@ -238,6 +272,8 @@ let () =
   register_op "ns_wfeed" op_ns_wfeed;
   register_op "ns_write" op_ns_write;
   register_op "ns_frames" (fun _ -> ());
+  register_op "ns_eof" op_ns_eof;
+  register_op "ns_restore" op_ns_restore;
   register_op "nss_read" op_nss_read;
   register_op "js_rt" op_js_rt;
   register_op "js_dec" op_js_dec;
